@@ -173,3 +173,89 @@ def run(ctx, chk, tier):
             chk.hold("R19.5", "from_labels", "genuines = scores[labels == genuine_label], frauds = scores[labels != genuine_label]; easy counts and score_class forwarded")
         for k, g, w in bad:
             chk.violation("R19.5", flq, "arg:" + k, show(g, 140) if g is not None else "missing", show(w, 140), ctx.where(flq))
+    alias_setters(ctx, chk, ci)
+    class_blind(ctx, chk, ci)
+
+
+def alias_setters(ctx, chk, ci):
+    """R19.6 writing through an alias reaches the aliased attribute: after `obj.genuines = v`, obj.pos is v (and nothing else changed); same for frauds/neg."""
+    ev = ctx.ev
+    for prop, attr, other in (("genuines", "pos", "neg"), ("frauds", "neg", "pos")):
+        if ci.find_setter(prop) is None:
+            chk.hold("R19.6", "setter:" + prop, "%s is read-only" % prop, nontrivial=False)
+            continue
+        X, Y, V_ = Sym("X_" + attr, ("attr", "array")), Sym("Y_" + other, ("attr", "array")), Sym("new_value", ("param", "array", "notnone"))
+        holder = {}
+
+        def thunk():
+            o = Obj(ci)
+            o.attrs[attr], o.attrs[other] = X, Y
+            holder["o"] = o
+            ev.setattr(o, prop, V_)
+            return o
+        outs = ctx.explore(thunk, chk)
+        r = returns(outs)
+        q = FRAUD + "." + prop
+        if len(r) != 1 or not isinstance(r[0].value, Obj):
+            chk.unknown("R19.6", "setter %s: %d return paths" % (prop, len(r)))
+            continue
+        o = r[0].value
+        if o.attrs.get(attr) == V_ and o.attrs.get(other) == Y:
+            chk.hold("R19.6", "setter:" + prop, "obj.%s = v stores v in self.%s and leaves self.%s alone" % (prop, attr, other))
+        else:
+            chk.violation("R19.6", q, "setter:" + prop, "self.%s = %s, self.%s = %s" % (attr, show(o.attrs.get(attr), 60), other, show(o.attrs.get(other), 60)),
+                          "self.%s = v, self.%s unchanged" % (attr, other), ctx.where(FRAUD + ".__init__"))
+
+
+def class_blind(ctx, chk, ci):
+    """R19.7 inherited queries do not look at the receiver's class: the only class-sensitive construct allowed in Scores' methods is the
+    name lookup getattr(type(self), name) (harmless while R19.3 holds); equality of a FraudScores view with a Scores of identical state is decided semantically."""
+    import ast
+    ev = ctx.ev
+    sci = ctx.db.cls(SCORES)
+    sites = []
+    for name, fi in sorted(sci.methods.items()):
+        parents = {}
+        for n in ast.walk(fi.node):
+            for c in ast.iter_child_nodes(n):
+                parents[c] = n
+        for n in ast.walk(fi.node):
+            sens = None
+            if isinstance(n, ast.Call) and isinstance(n.func, ast.Name) and n.func.id == "type" and len(n.args) == 1:
+                p = parents.get(n)
+                lookup = (isinstance(p, ast.Call) and isinstance(p.func, ast.Name) and p.func.id == "getattr" and p.args and p.args[0] is n) or \
+                         (isinstance(p, ast.Attribute) and p.value is n and p.attr not in ("__name__", "__qualname__"))
+                if not lookup:
+                    sens = ast.unparse(p if p is not None else n)
+            elif isinstance(n, ast.Attribute) and n.attr == "__class__":
+                sens = ast.unparse(parents.get(n, n))
+            elif isinstance(n, ast.Call) and isinstance(n.func, ast.Name) and n.func.id in ("isinstance", "issubclass") and n.args and \
+                    isinstance(n.args[0], ast.Name) and n.args[0].id in ("self", "other"):
+                sens = ast.unparse(n)
+            if sens:
+                sites.append((name, n.lineno, sens))
+    # semantic decision for __eq__ (the binary query): FraudScores view vs Scores of identical state, both operand orders
+    def state(cls):
+        o = Obj(ctx.db.cls(cls))
+        o.attrs.update(pos=G, neg=F, nb_easy_pos=EG, nb_easy_neg=EF, score_class=ctx.label("pos"), equal_class=ctx.label("pos"))
+        return o
+    res = {}
+    for a, b in ((SCORES, SCORES), (FRAUD, SCORES), (SCORES, FRAUD)):
+        outs = ctx.explore(lambda: ev.call(ctx.method(state(a), "__eq__"), [state(b)], {}), chk)
+        res[(a, b)] = sorted("%s|%s" % (o.kind, show(o.value, 300) if hasattr(o.value, "key") else repr(o.value)) for o in outs)
+    ref = res[(SCORES, SCORES)]
+    q = SCORES + ".__eq__"
+    for k, v in res.items():
+        if k == (SCORES, SCORES):
+            continue
+        inst = "eq:%s==%s" % (k[0].split(".")[-1], k[1].split(".")[-1])
+        if v == ref and ref:
+            chk.hold("R19.7", inst, "same outcome as Scores == Scores of identical state: %s" % ref[0][:80])
+        else:
+            chk.violation("R19.7", q, inst, v, "the answer of Scores == Scores on identical state: %s" % ref, ctx.where(q))
+    for name, line, text in sites:
+        if name == "__eq__":
+            continue  # decided semantically above
+        chk.unknown("R19.7", "Scores.%s line %d looks at the receiver's class (%s): faithfulness of the FraudScores view through this query is not decided" % (name, line, text))
+    chk.hold("R19.7", "class-sensitive-scan", "%d methods of Scores scanned; class-sensitive constructs outside the getattr(type(self), name) idiom: %d" % (len(sci.methods), len(sites)),
+             nontrivial=False)
